@@ -109,3 +109,204 @@ func VerifC03_ConfigGraded() {
 	}
 	verifReach("end")
 }
+
+// VerifC03_ConfigGradedSVD: the same graded block-diagonal construction for
+// Dgesvd with general (non-symmetric) blocks: the singular values of
+// diag(s1*B1, s2*B2) are the scaled singular values of the blocks. Dgebrd keeps
+// the exact zero structure and Dbdsqr splits the bidiagonal at the exact zero,
+// so each value is accurate relative to its own block; the singular vectors
+// satisfy A*v = sigma*u row by row relative to the row's block.
+func VerifC03_ConfigGradedSVD() {
+	impl := Implementation{}
+	n1 := verifChoose("n1", 1, verifParam("gradedn", 3))
+	n2 := verifChoose("n2", 1, verifParam("gradedn", 3))
+	exps := []int{-500, 0, 500}
+	x1 := exps[verifChoose("exp1", 0, 2)]
+	x2 := exps[verifChoose("exp2", 0, 2)]
+	if x1 == x2 {
+		return
+	}
+	vecs := verifChoose("vectors", 0, 1) == 1
+	job := lapack.SVDNone
+	if vecs {
+		job = lapack.SVDAll
+	}
+	svd := func(job lapack.SVDJob, n int, a []float64) (sv, u, vt []float64) {
+		sv = make([]float64, n)
+		u, vt = make([]float64, n*n), make([]float64, n*n)
+		q := make([]float64, 1)
+		impl.Dgesvd(job, job, n, n, verifC03cClone(a), n, sv, u, n, vt, n, q, -1)
+		work := make([]float64, int(q[0]))
+		ok := impl.Dgesvd(job, job, n, n, verifC03cClone(a), n, sv, u, n, vt, n, work, len(work))
+		verifAssert(ok, "Dgesvd: converged")
+		return
+	}
+	b1 := verifC03cMat(n1, n1, n1, 47*n1+3)
+	b2 := verifC03cMat(n2, n2, n2, 53*n2+4)
+	sv1, _, _ := svd(lapack.SVDNone, n1, b1)
+	sv2, _, _ := svd(lapack.SVDNone, n2, b2)
+	s1, s2 := math.Ldexp(1, x1), math.Ldexp(1, x2)
+	n := n1 + n2
+	a := make([]float64, n*n)
+	for i := 0; i < n1; i++ {
+		for j := 0; j < n1; j++ {
+			a[i*n+j] = s1 * b1[i*n1+j]
+		}
+	}
+	for i := 0; i < n2; i++ {
+		for j := 0; j < n2; j++ {
+			a[(n1+i)*n+n1+j] = s2 * b2[i*n2+j]
+		}
+	}
+	type sval struct{ v, tol float64 }
+	const rel = 1e-9
+	var want []sval
+	for _, x := range sv1 {
+		want = append(want, sval{s1 * x, rel * s1 * sv1[0]})
+	}
+	for _, x := range sv2 {
+		want = append(want, sval{s2 * x, rel * s2 * sv2[0]})
+	}
+	sort.Slice(want, func(i, j int) bool { return want[i].v > want[j].v })
+	sv, u, vt := svd(job, n, a)
+	ok := true
+	for i := 0; i < n; i++ {
+		ok = ok && math.Abs(sv[i]-want[i].v) <= want[i].tol && sv[i] >= 0
+		if i > 0 {
+			ok = ok && sv[i-1] >= sv[i]
+		}
+	}
+	verifAssert(ok, "Dgesvd: the singular values of diag(s1*B1, s2*B2) are the scaled singular values of the blocks, each accurate relative to its block, descending")
+	if vecs {
+		rowScale := func(i int) float64 {
+			if i < n1 {
+				return s1 * sv1[0]
+			}
+			return s2 * sv2[0]
+		}
+		ok = true
+		for j := 0; j < n; j++ {
+			// A * v_j = sigma_j * u_j, v_j = row j of vt
+			nu, nv := 0.0, 0.0
+			for i := 0; i < n; i++ {
+				r := -sv[j] * u[i*n+j]
+				for k := 0; k < n; k++ {
+					r += a[i*n+k] * vt[j*n+k]
+				}
+				ok = ok && math.Abs(r) <= rel*(rowScale(i)+sv[j])
+				nu += u[i*n+j] * u[i*n+j]
+				nv += vt[j*n+i] * vt[j*n+i]
+			}
+			ok = ok && math.Abs(nu-1) <= 1e-10 && math.Abs(nv-1) <= 1e-10
+		}
+		verifAssert(ok, "Dgesvd: A*v = sigma*u row by row relative to the row's block, unit-norm singular vectors")
+	}
+	verifReach("end")
+}
+
+// VerifC03_ConfigGradedGeev: the graded block-diagonal construction for Dgeev
+// (the non-symmetric path: Dgebal, Dgehrd, Dhseqr/Dlahqr, Dtrevc3) with
+// symmetric blocks, so that all eigenvalues are real and known from Dsyev on
+// the unscaled blocks: wi = 0 up to rounding relative to the block, wr is the
+// union of the scaled block eigenvalues (order unspecified: compared sorted),
+// right eigenvectors satisfy A*v = lambda*v row by row relative to the block.
+func VerifC03_ConfigGradedGeev() {
+	impl := Implementation{}
+	n1 := verifChoose("n1", 2, verifParam("gradedn", 3))
+	n2 := verifChoose("n2", 2, verifParam("gradedn", 3))
+	exps := []int{-500, 0, 500}
+	x1 := exps[verifChoose("exp1", 0, 2)]
+	x2 := exps[verifChoose("exp2", 0, 2)]
+	if x1 == x2 {
+		return
+	}
+	vecs := verifChoose("vectors", 0, 1) == 1
+	jobvr := lapack.RightEVNone
+	if vecs {
+		jobvr = lapack.RightEVCompute
+	}
+	eig := func(n int, b []float64) []float64 {
+		w := make([]float64, n)
+		q := make([]float64, 1)
+		impl.Dsyev(lapack.EVNone, blas.Upper, n, verifC03cClone(b), n, w, q, -1)
+		work := make([]float64, int(q[0]))
+		ok := impl.Dsyev(lapack.EVNone, blas.Upper, n, verifC03cClone(b), n, w, work, len(work))
+		verifAssert(ok, "Dsyev: converged")
+		return w
+	}
+	b1 := verifC03cMat(n1, n1, n1, 59*n1+5)
+	verifC03cSym(n1, n1, b1)
+	b2 := verifC03cMat(n2, n2, n2, 61*n2+6)
+	verifC03cSym(n2, n2, b2)
+	w1, w2 := eig(n1, b1), eig(n2, b2)
+	s1, s2 := math.Ldexp(1, x1), math.Ldexp(1, x2)
+	big1 := math.Max(math.Abs(w1[0]), math.Abs(w1[n1-1]))
+	big2 := math.Max(math.Abs(w2[0]), math.Abs(w2[n2-1]))
+	n := n1 + n2
+	a := make([]float64, n*n)
+	for i := 0; i < n1; i++ {
+		for j := 0; j < n1; j++ {
+			a[i*n+j] = s1 * b1[i*n1+j]
+		}
+	}
+	for i := 0; i < n2; i++ {
+		for j := 0; j < n2; j++ {
+			a[(n1+i)*n+n1+j] = s2 * b2[i*n2+j]
+		}
+	}
+	type ev struct{ v, tol float64 }
+	const rel = 1e-9
+	var want []ev
+	for _, x := range w1 {
+		want = append(want, ev{s1 * x, rel * s1 * big1})
+	}
+	for _, x := range w2 {
+		want = append(want, ev{s2 * x, rel * s2 * big2})
+	}
+	sort.Slice(want, func(i, j int) bool { return want[i].v < want[j].v })
+
+	wr, wi := make([]float64, n), make([]float64, n)
+	vr := make([]float64, n*n)
+	q := make([]float64, 1)
+	impl.Dgeev(lapack.LeftEVNone, jobvr, n, verifC03cClone(a), n, wr, wi, nil, 1, vr, n, q, -1)
+	work := make([]float64, int(q[0]))
+	first := impl.Dgeev(lapack.LeftEVNone, jobvr, n, verifC03cClone(a), n, wr, wi, nil, 1, vr, n, work, len(work))
+	verifAssert(first == 0, "Dgeev: converged")
+	idx := make([]int, n)
+	for i := range idx {
+		idx[i] = i
+	}
+	sort.Slice(idx, func(i, j int) bool { return wr[idx[i]] < wr[idx[j]] })
+	ok := true
+	for k := 0; k < n; k++ {
+		i := idx[k]
+		ok = ok && math.Abs(wr[i]-want[k].v) <= want[k].tol && math.Abs(wi[i]) <= want[k].tol
+	}
+	verifAssert(ok, "Dgeev: the eigenvalues of diag(s1*B1, s2*B2) with symmetric blocks are real and equal the scaled eigenvalues of the blocks, each accurate relative to its block")
+	if vecs && ok {
+		rowScale := func(i int) float64 {
+			if i < n1 {
+				return s1 * big1
+			}
+			return s2 * big2
+		}
+		good := true
+		for j := 0; j < n; j++ {
+			if wi[j] != 0 {
+				continue // a rounding-level complex pair: vectors stored as a pair, not checked here
+			}
+			nrm := 0.0
+			for i := 0; i < n; i++ {
+				r := -wr[j] * vr[i*n+j]
+				for k := 0; k < n; k++ {
+					r += a[i*n+k] * vr[k*n+j]
+				}
+				good = good && math.Abs(r) <= rel*(rowScale(i)+math.Abs(wr[j]))
+				nrm += vr[i*n+j] * vr[i*n+j]
+			}
+			good = good && math.Abs(nrm-1) <= 1e-10
+		}
+		verifAssert(good, "Dgeev: A*v = lambda*v row by row relative to the row's block, unit-norm right eigenvectors")
+	}
+	verifReach("end")
+}
